@@ -158,6 +158,22 @@ class Cfg:
                     st.append(t)
         return seen
 
+    def reachable_avoiding_edges(self, start, avoid_edges, avoid_blocks=()):
+        """Blocks reachable from `start` without taking any edge (block, label) in avoid_edges."""
+        avoid_edges = set(avoid_edges)
+        avoid_blocks = set(avoid_blocks)
+        seen = {start}
+        st = [start]
+        while st:
+            x = st.pop()
+            for lab, t in self.succ[x]:
+                if (x, lab) in avoid_edges or t in avoid_blocks:
+                    continue
+                if t not in seen:
+                    seen.add(t)
+                    st.append(t)
+        return seen
+
     # --- dominators -----------------------------------------------------------------------
     def _dominators(self, succ, pred, roots, nodes):
         dom = {x: set(nodes) for x in nodes}
@@ -339,6 +355,8 @@ class Cfg:
                             if self.body.blocks[p]["t"]["k"] == "switch":
                                 # the same target may be reached under several labels: then no fact
                                 labs = [l for l, t in self.succ[p] if t == x]
+                                if len(labs) > 1:
+                                    out = out | {(p, ("any", tuple(sorted(map(str, labs)))))}
                                 if len(labs) == 1:
                                     out = out | {(p, labs[0])}
                                     if p in phi:
@@ -1071,9 +1089,11 @@ def enum_switch(facts, body, flow, cfg, sb):
 
 def variant_blocks(facts, body, flow, cfg, adt_path, variants):
     """Blocks only reached when a value of enum `adt_path` was matched as one of `variants`
-    (edge-dominated by such an arm of some discriminant switch on that enum)."""
+    (edge-dominated by such an arm of some discriminant switch on that enum; arms sharing a target
+    count when all of them are within `variants`)."""
     ef = cfg.edge_facts()
     edges = set()
+    ok_labels = {}
     for sb in cfg.reach:
         es = enum_switch(facts, body, flow, cfg, sb)
         if not es or es[0] != adt_path:
@@ -1081,7 +1101,18 @@ def variant_blocks(facts, body, flow, cfg, adt_path, variants):
         for lab, names in es[1].items():
             if names and names <= frozenset(variants):
                 edges.add((sb, lab))
-    return {b for b in cfg.reach if ef.get(b, frozenset()) & edges}
+                ok_labels.setdefault(sb, set()).add(str(lab))
+    out = set()
+    for b in cfg.reach:
+        fs = ef.get(b, frozenset())
+        if fs & edges:
+            out.add(b)
+            continue
+        for (sb, lab) in fs:
+            if isinstance(lab, tuple) and lab and lab[0] == "any" and sb in ok_labels and set(lab[1]) <= ok_labels[sb]:
+                out.add(b)
+                break
+    return out
 
 
 # ---- unified switch-source resolution (handles `!x`, `anyhow::__private::not(x)`, copies) ----------
@@ -1184,3 +1215,27 @@ def bool_edge_blocks(body, flow, cfg, callee_pred):
     tb = {b for b in cfg.reach if ef.get(b, frozenset()) & t_edges}
     fb = {b for b in cfg.reach if ef.get(b, frozenset()) & f_edges}
     return tb, fb
+
+
+def bool_edges_of(body, flow, cfg, callee_pred):
+    """(true_edges, false_edges): switch edges taken when a call satisfying callee_pred returned true / false."""
+    t_edges, f_edges = set(), set()
+    for sb in cfg.reach:
+        src = switch_source_call(body, flow, sb)
+        if not src or not callee_pred(src[0]):
+            continue
+        for lab, v in switch_bool_labels(body, flow, cfg, sb).items():
+            (t_edges if v else f_edges).add((sb, lab))
+    return t_edges, f_edges
+
+
+def field_stores(body, field):
+    """[(bb, stmt)] assignments whose destination's last projection is `.field`"""
+    out = []
+    for bi, blk in enumerate(body.blocks):
+        if blk.get("cleanup"):
+            continue
+        for s in blk["s"]:
+            if s["k"] == "assign" and s["p"][1] and s["p"][1][-1] == "." + field:
+                out.append((bi, s))
+    return out
